@@ -79,6 +79,12 @@ FILL = {"f": 1.5, "s": "zz", "u": "z", "d": "2001-02-03", "t": "2001-02-03T04:05
 
 def check(plan, ctx):
     fp = plan["frame"]
+    # history: another frame with the same column names (all strings) went through the same converters before
+    prior = di.DataFrame({c["name"]: ["x", "y"] for c in fp["cols"]})
+    di.DataFrame.from_pandas(prior.to_pandas())
+    di.DataFrame.from_arrow(prior.to_arrow())
+    di.DataFrame.from_json(prior.to_json())
+    prior.to_list_of_dicts().to_data_frame()
     data = build.frame(fp, rid=None)
     _roundtrips(data, fp, ctx)
     # ---- history: edit cells in place (fill a missing slot, blank a filled one), then convert again ----
